@@ -150,6 +150,9 @@ enum Op {
     Q(Query),
     /// fetch + read_iter, consume only k items, drop the iterator
     Partial(Query, usize),
+    /// read again WITHOUT a new fetch (true: read(), false: read_iter()): the reader still holds
+    /// the last fetched interval, so the same slice must come back
+    Again(bool),
 }
 
 fn history_check(cfg: &FileCfg, sched: &Schedule, ops: &[Op], cc: &mut CaseCtx) {
@@ -163,6 +166,15 @@ fn history_check(cfg: &FileCfg, sched: &Schedule, ops: &[Op], cc: &mut CaseCtx) 
         let mut outs: Vec<Result<Vec<u8>, String>> = vec![];
         for op in ops {
             match op {
+                Op::Again(use_read) => {
+                    let r = if *use_read {
+                        let mut out = vec![b'#'; 2];
+                        rd.read(&mut out).map(|_| out)
+                    } else {
+                        rd.read_iter().and_then(|it| it.collect::<std::io::Result<Vec<u8>>>())
+                    };
+                    outs.push(r.map_err(|e| e.to_string()));
+                }
                 Op::Q(q) => outs.push(run_query(&mut rd, q, cfg).map_err(|e| e.to_string())),
                 Op::Partial(q, k) => {
                     let r = (|| -> std::io::Result<Vec<u8>> {
@@ -187,13 +199,30 @@ fn history_check(cfg: &FileCfg, sched: &Schedule, ops: &[Op], cc: &mut CaseCtx) 
         Err(msg) => cc.violation("C12/history/panic", msg),
         Ok(outs) => {
             cc.outcome(&outs);
+            let mut fetched: Option<Vec<u8>> = None;
             for (i, (op, out)) in ops.iter().zip(&outs).enumerate() {
                 let want = match op {
-                    Op::Q(q) => seqs[q.rec][q.start as usize..q.stop as usize].to_vec(),
+                    Op::Q(q) => {
+                        let w = seqs[q.rec][q.start as usize..q.stop as usize].to_vec();
+                        fetched = Some(w.clone());
+                        w
+                    }
                     Op::Partial(q, k) => {
                         let s = &seqs[q.rec][q.start as usize..q.stop as usize];
+                        fetched = Some(s.to_vec());
                         s[..(*k).min(s.len())].to_vec()
                     }
+                    Op::Again(_) => match &fetched {
+                        Some(w) => w.clone(),
+                        None => {
+                            // nothing fetched yet: reading must be refused
+                            if out.is_ok() {
+                                cc.violation("C12/history/read-without-fetch-answered", format!("operation #{} returned {:?}", i, out));
+                                return;
+                            }
+                            continue;
+                        }
+                    },
                 };
                 if out.as_ref().ok() != Some(&want) {
                     cc.violation(
@@ -398,6 +427,8 @@ fn history_ops(cfg: &FileCfg) -> Vec<Op> {
     v.push(Op::Partial(qs[0].clone(), 1));
     v.push(Op::Partial(qs[2].clone(), 2));
     v.push(Op::Partial(qs[0].clone(), (a / 2) as usize + 1));
+    v.push(Op::Again(true));
+    v.push(Op::Again(false));
     v
 }
 
@@ -475,7 +506,7 @@ impl Prop for C12Prop {
         "fault_enumeration"
     }
     fn rule(&self) -> &'static str {
-        "Two-record FASTA files over a grid of line widths, terminators and lengths with a matching .fai; every (record, start, stop) with 0<=start<=stop<=len through fetch-by-name+read and fetch-by-rid+read_iter under every schedule of a family (uniform 1,2,3, cycles, unbounded, every single short answer of 1..3 bytes at one of the first calls; thorough: every pair of such deviations), the two other API pairings on one schedule; error clauses per file; every truncation offset of the file (index intact) for the queries of a stride; fetch/read/read_iter/partially-consumed-iterator histories of depth 3/4 on one reader; wide-line files (60, 511..513, 600) with boundary marks. Non-trivial: the interval crosses a line boundary, or the file is truncated; histories: all."
+        "Two-record FASTA files over a grid of line widths, terminators and lengths with a matching .fai; every (record, start, stop) with 0<=start<=stop<=len through fetch-by-name+read and fetch-by-rid+read_iter under every schedule of a family (uniform 1,2,3, cycles, unbounded, every single short answer of 1..3 bytes at one of the first calls; thorough: every pair of such deviations), the two other API pairings on one schedule; error clauses per file; every truncation offset of the file (index intact) for the queries of a stride; fetch/read/read_iter/partially-consumed-iterator/read-again-without-fetch histories of depth 3/4 on one reader; wide-line files (60, 511..513, 600) with boundary marks. Non-trivial: the interval crosses a line boundary, or the file is truncated; histories: all."
     }
     fn assumptions(&self) -> Vec<&'static str> {
         vec![
@@ -488,7 +519,7 @@ impl Prop for C12Prop {
         json!({
             "small_files": small_files(tier).len(), "widths": "1,2,3,4,5,7", "lengths": tier.pick("{1,2,5,7,11} x {1,6}", "{1,2,5,7,11,13} x {1,6}"),
             "deviations": tier.pick("<=1 (size 1..3 at one of the first 5 calls)", "<=2 (sizes 1..3 at the first 7 calls)"),
-            "history_depth": tier.pick(3, 4), "history_alphabet": 10,
+            "history_depth": tier.pick(3, 4), "history_alphabet": "7 fetch+read queries, 3 partially consumed iterators, read()/read_iter() again without a new fetch",
             "wide": "width 60,511,512,513,600 x LF/CRLF, len 1300/700, marks within +-2 of multiples of w and 512",
             "truncation": tier.pick("every offset, for every second (start,stop)", "every offset, every (start,stop)"),
         })
